@@ -225,7 +225,9 @@ def mcaStep (fe : FetchFn) (mc : McaFn) (P : Prog) (s : State) (q : Nat) (rev : 
         | none => (r.1, true)                  -- evicted: "changed" without executing
         | some _ =>
           let x := execute fe P r.1 q (some m)
-          (x.1, decide (x.2.ca > rev))
+          -- the recomputed value is cached: the eviction policy is told about it
+          -- (`self.eviction.record_use` after the re-execution in maybe_changed_after_cold)
+          (recordUseFor P x.1 q, decide (x.2.ca > rev))
 
 def eng (P : Prog) : Nat → FetchFn × McaFn
   | 0 => (fun s _ => (s, ⟨0, 0, 0⟩), fun s _ _ => (s, true))
